@@ -15,6 +15,7 @@ import (
 
 const (
 	d7Base     = 1000000
+	corpusBase = 1500000
 	enumBase   = 2000000
 	enumStride = 1000000
 	enumCap    = 400000
